@@ -2,18 +2,30 @@ package main
 
 // C20 — context.Pool against coq/C20.
 //
-// Two kinds of cases:
+// Three kinds of cases:
 //
 //	script: one caller drives NewPool / member cancellations / Add / Cancel / Size and lets the
 //	        pool settle after every step; observed = (Done() closed?, Size()) after creation and
 //	        after every step, "done after every context was ended", "goroutine still there".
+//	nested: a script, then Add of a harness-defined context whose Done() method is a callback:
+//	        inside it the harness starts Cancel() or Size() on another goroutine, or ends
+//	        members itself, and waits a bounded time; recorded: was Done() called, did the
+//	        nested call return (for ended members: the pool become done) inside the callback,
+//	        i.e. before Add returned, was the pool seen done there; then the observations after both returned and of a further script.
 //	race:   k live members are ended by one goroutine while other goroutines each Add one fresh
 //	        live context; the harness decides under its own mutex, from marks set BEFORE each
 //	        member is cancelled, which Adds certainly returned while a member was live.
 //
-// No real-time judgement except "did not happen within 10 s" for observations that must happen
-// (pool done / goroutine gone). A pool seen done is a fact (cancellation is irreversible); a pool
-// seen not-done when it may not be done is never an alarm.
+// No real-time judgement except "did not happen within liveDeadline" for observations that must
+// happen (pool done / goroutine gone / a call returns). A pool seen done is a fact (cancellation
+// is irreversible); a pool seen not-done when it may not be done is never an alarm. The wait
+// inside the Done() callback is not a judgement: whether the nested operation completed inside
+// or after is recorded as observed and the model/oracle accept what is consistent with it.
+//
+// The harness never hangs: every liveness wait has its own deadline, every pool call runs under
+// one. The first 3 cases of a run that fail a liveness wait are recorded with what was seen (the
+// oracle fails on them: a concrete replay); from then on the waits are short and a case that
+// fails one is dropped (counted, not recorded - it was not given the full deadline).
 
 import (
 	"context"
@@ -33,21 +45,67 @@ import (
 )
 
 const (
-	doneDeadline = 10 * time.Second
-	leakDeadline = 10 * time.Second
+	liveDeadline   = 8 * time.Second       // the one real-time judgement: "must happen" did not
+	shortDeadline  = 10 * time.Millisecond // after fullFailures failed cases (cases then dropped)
+	failedCaseWait = 2 * time.Millisecond  // further waits of a case that has already failed one
+	fullFailures   = 3
 )
+
+// patience: how long a liveness wait may take, given how many cases of this run failed one.
+type patienceT struct {
+	failedCases int
+	caseFailed  bool
+}
+
+var patience patienceT
+
+func (pt *patienceT) begin() { pt.caseFailed = false }
+
+// deadline returns the wait bound and whether a failure under it is recorded (full deadline, or
+// a case that has already failed under the full deadline).
+func (pt *patienceT) deadline() (time.Duration, bool) {
+	switch {
+	case pt.caseFailed:
+		return failedCaseWait, true
+	case pt.failedCases >= fullFailures:
+		return shortDeadline, false
+	default:
+		return liveDeadline, true
+	}
+}
+
+// failed notes a liveness failure; it reports whether the case is still to be recorded.
+func (pt *patienceT) failed(recorded bool) bool {
+	if !recorded {
+		return false
+	}
+	if !pt.caseFailed {
+		pt.caseFailed = true
+		pt.failedCases++
+	}
+	return true
+}
 
 type c20Op struct {
 	Op string `json:"op"` // end | add | cancel | size
 	M  int    `json:"m,omitempty"`
+	// Fast (add, cancel, size only; scripts only): the next operation follows at once, on the
+	// same goroutine; the pool is not left to settle and nothing is observed after this one.
+	Fast bool `json:"fast,omitempty"`
 }
 
 type c20Input struct {
-	Kind string `json:"kind"` // script | race
-	// script
+	Kind string `json:"kind"` // script | nested | race
+	// script, nested
 	Pre  []int   `json:"pre,omitempty"`  // ids ended before NewPool
 	Init []int   `json:"init,omitempty"` // ids passed to NewPool, in order
 	Ops  []c20Op `json:"ops,omitempty"`
+	// nested: after Ops, Add(M) whose Done() callback performs Nested; then Ops2
+	M      int     `json:"m,omitempty"`
+	Nested string  `json:"nested,omitempty"` // cancel | size | end
+	NEnd   []int   `json:"nend,omitempty"`   // nested end: the ids ended inside the callback, in order
+	WaitMs int     `json:"wait_ms,omitempty"`
+	Ops2   []c20Op `json:"ops2,omitempty"`
 	// race
 	K      int   `json:"k,omitempty"`      // live initial members
 	Adders int   `json:"adders,omitempty"` // goroutines adding one fresh context each
@@ -129,8 +187,8 @@ func settleNotDone(p *kitctx.Pool, rounds int) bool {
 }
 
 // goroutinesBack polls until the number of goroutines is back to the baseline.
-func goroutinesBack(base int) bool {
-	deadline := time.Now().Add(leakDeadline)
+func goroutinesBack(base int, d time.Duration) bool {
+	deadline := time.Now().Add(d)
 	for i := 0; ; i++ {
 		if runtime.NumGoroutine() <= base {
 			return true
@@ -144,6 +202,33 @@ func goroutinesBack(base int) bool {
 			time.Sleep(200 * time.Microsecond)
 		}
 	}
+}
+
+// returns runs f on its own goroutine and reports whether it returned within d; a panic of f is
+// caught and reported (nil otherwise).
+func returns(f func(), d time.Duration) (returned bool, panicked any) {
+	ch := make(chan struct{})
+	go func() {
+		defer close(ch)
+		defer func() { panicked = recover() }()
+		f()
+	}()
+	t := time.NewTimer(d)
+	defer t.Stop()
+	select {
+	case <-ch:
+		return true, panicked
+	case <-t.C:
+		return false, nil
+	}
+}
+
+func returnsOK(f func(), d time.Duration) bool {
+	ok, pv := returns(f, d)
+	if pv != nil {
+		panic(pv)
+	}
+	return ok
 }
 
 // ---------------------------------------------------------------------------------------
@@ -182,23 +267,51 @@ func (e *expect) apply(op c20Op) {
 }
 
 type c20Obs struct {
-	Done bool `json:"done"`
-	Size int  `json:"size"`
+	Done    bool `json:"done"`
+	Size    int  `json:"size"`
+	Skipped bool `json:"not_observed,omitempty"` // after a Fast operation
 }
 
-func (o c20Obs) coq() string { return fmt.Sprintf("(%s, %s)", hx.CoqBool(o.Done), hx.CoqZ(int64(o.Size))) }
+func (o c20Obs) coq() string {
+	return fmt.Sprintf("(%s, %s)", hx.CoqBool(o.Done), hx.CoqZ(int64(o.Size)))
+}
 
-func observe(p *kitctx.Pool, expectDone bool, rounds int) c20Obs {
-	var d bool
-	if expectDone {
-		d = waitDone(p, doneDeadline)
-	} else {
-		d = settleNotDone(p, rounds)
+func (o c20Obs) pcoq() string {
+	if o.Skipped {
+		return "pnone"
 	}
-	return c20Obs{Done: d, Size: p.Size()}
+	return "pfull " + o.coq()
+}
+
+func pobsCoq(obs []c20Obs) string {
+	out := make([]string, len(obs))
+	for i, o := range obs {
+		out[i] = o.pcoq()
+	}
+	return hx.CoqList(out)
+}
+
+func anyFast(ops []c20Op) bool {
+	for _, op := range ops {
+		if op.Fast {
+			return true
+		}
+	}
+	return false
+}
+
+func obsCoq(obs []c20Obs) string {
+	out := make([]string, len(obs))
+	for i, o := range obs {
+		out[i] = o.coq()
+	}
+	return hx.CoqList(out)
 }
 
 func opCoq(op c20Op) string {
+	if op.Fast && op.Op == "end" {
+		panic("c20: a context's end cannot be fast (the watcher's reaction to it is what is waited for)")
+	}
 	switch op.Op {
 	case "end":
 		return "SEnd " + hx.CoqZ(int64(op.M))
@@ -212,96 +325,499 @@ func opCoq(op c20Op) string {
 	panic("c20: bad op " + op.Op)
 }
 
-func runScript(ctx *core.Ctx, in c20Input) {
-	for _, op := range in.Ops {
-		opCoq(op) // validates
+func opsCoq(ops []c20Op) string {
+	out := make([]string, len(ops))
+	for i, op := range ops {
+		out[i] = opCoq(op)
 	}
-	base := runtime.NumGoroutine()
-	cs := newCtxSet()
-	ex := &expect{ended: map[int]bool{}}
+	return hx.CoqList(out)
+}
+
+func opsShape(ops []c20Op) string {
+	shape := make([]string, len(ops))
+	for i, op := range ops {
+		shape[i] = fmt.Sprintf("%s%d", op.Op[:1], op.M)
+		if op.Fast {
+			shape[i] += "!"
+		}
+	}
+	return strings.Join(shape, ",")
+}
+
+// runner drives one pool through a settled script.
+type runner struct {
+	cs       *ctxSet
+	ex       *expect
+	p        *kitctx.Pool
+	base     int    // goroutines before the pool existed
+	wedged   string // a pool call that did not return within the deadline, or panicked
+	panicked bool
+	dropped  bool // a liveness wait failed under the shortened deadline: the case is not recorded
+	doneBy   string
+}
+
+func (r *runner) stopped() bool { return r.wedged != "" || r.dropped }
+
+// call runs one pool call under the liveness deadline.
+func (r *runner) call(what string, f func()) bool {
+	if r.stopped() {
+		return false
+	}
+	d, rec := patience.deadline()
+	ok, pv := returns(f, d)
+	if pv != nil {
+		r.wedged, r.panicked = what, true
+		return false
+	}
+	if ok {
+		return true
+	}
+	if patience.failed(rec) {
+		r.wedged = what
+	} else {
+		r.dropped = true
+	}
+	return false
+}
+
+// waitDone: the pool must be done by now.
+func (r *runner) waitDone() bool {
+	d, rec := patience.deadline()
+	if waitDone(r.p, d) {
+		return true
+	}
+	if !patience.failed(rec) {
+		r.dropped = true
+	}
+	return false
+}
+
+func (r *runner) observe(rounds int) c20Obs {
+	var o c20Obs
+	if r.stopped() {
+		return o
+	}
+	if r.ex.done() {
+		o.Done = r.waitDone()
+	} else {
+		o.Done = settleNotDone(r.p, rounds)
+	}
+	r.call("Size", func() { o.Size = r.p.Size() })
+	return o
+}
+
+func newRunner(in c20Input, later ...[]c20Op) (*runner, c20Obs) {
+	for _, ops := range append([][]c20Op{in.Ops}, later...) {
+		for _, op := range ops {
+			opCoq(op) // validates
+		}
+	}
+	patience.begin()
+	r := &runner{cs: newCtxSet(), ex: &expect{ended: map[int]bool{}}, doneBy: "none", base: runtime.NumGoroutine()}
 	for _, id := range in.Pre {
-		cs.end(id)
-		ex.ended[id] = true
+		r.cs.end(id)
+		r.ex.ended[id] = true
 	}
 	ctxs := make([]context.Context, len(in.Init))
 	for i, id := range in.Init {
-		ctxs[i] = cs.get(id)
-		ex.members = append(ex.members, id)
+		ctxs[i] = r.cs.get(id)
+		r.ex.members = append(r.ex.members, id)
 	}
-	for _, op := range in.Ops { // every id of the script exists before the run
-		if op.Op == "end" || op.Op == "add" {
-			cs.get(op.M)
-		}
-	}
-	p := kitctx.NewPool(ctxs...)
-	obs0 := observe(p, ex.done(), 6)
-	obs := make([]c20Obs, len(in.Ops))
-	doneBy := "none"
-	for i, op := range in.Ops {
-		was := ex.done()
-		switch op.Op {
-		case "end":
-			cs.end(op.M)
-		case "add":
-			if r := p.Add(cs.get(op.M)); r != p {
-				panic("c20: Add returned a different pool")
+	for _, ops := range append([][]c20Op{in.Ops}, later...) { // every id of the script exists before the run
+		for _, op := range ops {
+			if op.Op == "end" || op.Op == "add" {
+				r.cs.get(op.M)
 			}
-		case "cancel":
-			p.Cancel()
-		case "size":
-			_ = p.Size()
 		}
-		ex.apply(op)
-		if !was && ex.done() {
-			doneBy = op.Op
+	}
+	r.call("NewPool", func() { r.p = kitctx.NewPool(ctxs...) })
+	return r, r.observe(6)
+}
+
+// do performs one operation on the calling goroutine.
+func (r *runner) do(op c20Op) {
+	switch op.Op {
+	case "end":
+		r.cs.end(op.M)
+	case "add":
+		if ret := r.p.Add(r.cs.get(op.M)); ret != r.p {
+			panic("c20: Add returned a different pool")
+		}
+	case "cancel":
+		r.p.Cancel()
+	case "size":
+		_ = r.p.Size()
+	}
+}
+
+// steps runs ops, one observation each (none after a Fast operation: it and the operations up
+// to the next one that is not Fast are issued back to back); it returns the observations of the
+// steps that were completed (all of them unless a call wedged or the case was dropped).
+func (r *runner) steps(ops []c20Op, lastLook bool) []c20Obs {
+	obs := make([]c20Obs, 0, len(ops))
+	for i := 0; i < len(ops) && !r.stopped(); {
+		j := i
+		for j < len(ops)-1 && ops[j].Fast {
+			j++
+		}
+		batch := ops[i : j+1]
+		was := r.ex.done()
+		what := batch[0].Op
+		if len(batch) > 1 {
+			what = "one of " + opsShape(batch)
+		}
+		ok := true
+		if len(batch) == 1 && batch[0].Op == "end" {
+			r.cs.end(batch[0].M)
+		} else {
+			ok = r.call(what, func() {
+				for _, op := range batch {
+					r.do(op)
+				}
+			})
+		}
+		if !ok {
+			break
+		}
+		for _, op := range batch {
+			r.ex.apply(op)
+			if !was && r.ex.done() {
+				r.doneBy = op.Op
+				was = true
+			}
 		}
 		rounds := 6
-		if i == len(in.Ops)-1 {
+		if lastLook && j == len(ops)-1 {
 			rounds = 60 // last look: a pool that went done early has had time to show it
 		}
-		obs[i] = observe(p, ex.done(), rounds)
+		o := r.observe(rounds)
+		if r.stopped() {
+			break
+		}
+		for k := i; k < j; k++ {
+			obs = append(obs, c20Obs{Skipped: true})
+		}
+		obs = append(obs, o)
+		i = j + 1
 	}
-	// last phase: every context ends; the pool must be done and its goroutine gone
-	cs.endAll()
-	final := waitDone(p, doneDeadline)
-	leak := !goroutinesBack(base)
+	return obs
+}
 
-	coqObs := make([]string, len(obs))
-	for i, o := range obs {
-		coqObs[i] = o.coq()
+// finish: every context ends; the pool must be done and its goroutine gone.
+func (r *runner) finish() (final, leak bool) {
+	r.cs.endAll()
+	if r.dropped {
+		return false, true
 	}
-	coqOps := make([]string, len(in.Ops))
-	shape := make([]string, len(in.Ops))
-	nAdd, nLiveInit := 0, 0
+	if r.wedged != "" || r.p == nil {
+		return false, true
+	}
+	final = r.waitDone()
+	if r.dropped {
+		return false, true
+	}
+	d, rec := patience.deadline()
+	leak = !goroutinesBack(r.base, d)
+	if leak && !patience.failed(rec) {
+		r.dropped = true
+	}
+	return final, leak
+}
+
+func liveInit(in c20Input) int {
 	preSet := map[int]bool{}
 	for _, id := range in.Pre {
 		preSet[id] = true
 	}
+	n := 0
 	for _, id := range in.Init {
 		if !preSet[id] {
-			nLiveInit++
+			n++
 		}
 	}
-	for i, op := range in.Ops {
-		coqOps[i] = opCoq(op)
-		shape[i] = fmt.Sprintf("%s%d", op.Op[:1], op.M)
+	return n
+}
+
+// deadFirst: some already-ended initial context stands before a live one.
+func deadFirst(in c20Input) bool {
+	preSet := map[int]bool{}
+	for _, id := range in.Pre {
+		preSet[id] = true
+	}
+	dead := false
+	for _, id := range in.Init {
+		if preSet[id] {
+			dead = true
+		} else if dead {
+			return true
+		}
+	}
+	return false
+}
+
+func (r *runner) decorate(ctx *core.Ctx, c *hx.Case, kind string) bool {
+	if r.dropped {
+		ctx.Sink.Count(kind + "/dropped(liveness_wait_failed_under_short_deadline_after_3_recorded_failures)")
+		return false
+	}
+	if r.wedged != "" {
+		c.Direct = 2
+		if r.panicked {
+			c.Note = fmt.Sprintf("%s panicked; the script is recorded up to that call", r.wedged)
+			ctx.Sink.Count(kind + "/call_panicked")
+		} else {
+			c.Note = fmt.Sprintf("%s did not return within %v; the script is recorded up to that call", r.wedged, liveDeadline)
+			ctx.Sink.Count(kind + "/call_did_not_return")
+		}
+	}
+	if patience.caseFailed {
+		ctx.Sink.Count(kind + "/liveness_failure_recorded")
+	}
+	return true
+}
+
+func runScript(ctx *core.Ctx, in c20Input) {
+	r, obs0 := newRunner(in)
+	obs := r.steps(in.Ops, true)
+	final, leak := r.finish()
+	ops := in.Ops[:len(obs)] // all of them unless a call wedged
+	nAdd := 0
+	for _, op := range ops {
 		if op.Op == "add" {
 			nAdd++
 		}
-		ctx.Sink.Count("script/op=" + op.Op)
 	}
 	c := hx.Case{Kind: "script", Input: hx.MustJSON(in), Facts: map[string]any{}}
-	c.Class = fmt.Sprintf("script/pre%v/init%v/%s", in.Pre, in.Init, strings.Join(shape, ","))
+	if !r.decorate(ctx, &c, "script") {
+		return
+	}
+	for _, op := range ops {
+		ctx.Sink.Count("script/op=" + op.Op)
+	}
+	nLiveInit := liveInit(in)
+	c.Class = fmt.Sprintf("script/pre%v/init%v/%s", in.Pre, in.Init, opsShape(in.Ops))
 	c.Trivial = nLiveInit == 0
 	c.Observed = map[string]any{"obs0": obs0, "obs": obs, "final_done": final, "goroutine_left": leak}
-	c.Coq = fmt.Sprintf("CScript %s %s %s %s %s %s %s", hx.CoqInts(in.Pre), hx.CoqInts(in.Init),
-		hx.CoqList(coqOps), obs0.coq(), hx.CoqList(coqObs), hx.CoqBool(final), hx.CoqBool(leak))
+	if anyFast(ops) {
+		c.Coq = fmt.Sprintf("CPScript %s %s %s %s %s %s %s", hx.CoqInts(in.Pre), hx.CoqInts(in.Init),
+			opsCoq(ops), obs0.coq(), pobsCoq(obs), hx.CoqBool(final), hx.CoqBool(leak))
+		ctx.Sink.Count("script/with_back_to_back_operations")
+	} else {
+		c.Coq = fmt.Sprintf("CScript %s %s %s %s %s %s %s", hx.CoqInts(in.Pre), hx.CoqInts(in.Init),
+			opsCoq(ops), obs0.coq(), obsCoq(obs), hx.CoqBool(final), hx.CoqBool(leak))
+	}
 	ctx.Sink.Count("kind=script")
 	ctx.Sink.Count(fmt.Sprintf("script/initial=%d", len(in.Init)))
 	ctx.Sink.Count(fmt.Sprintf("script/initial_live=%d", nLiveInit))
+	if deadFirst(in) {
+		ctx.Sink.Count("script/ended_initial_context_before_a_live_one")
+	}
 	ctx.Sink.Count(fmt.Sprintf("script/adds=%d", nAdd))
-	ctx.Sink.Count("script/pool_ended_by=" + doneBy)
+	ctx.Sink.Count("script/pool_ended_by=" + r.doneBy)
 	ctx.Sink.Add(c)
+}
+
+// ---------------------------------------------------------------------------------------
+// nested: an operation performed inside the Done() method of the context offered to Add
+
+// hookCtx is a context whose Done method runs a callback the first time it is called.
+type hookCtx struct {
+	context.Context
+	used atomic.Bool
+	hook func()
+}
+
+func (h *hookCtx) Done() <-chan struct{} {
+	if h.used.CompareAndSwap(false, true) {
+		h.hook()
+	}
+	return h.Context.Done()
+}
+
+func nestedOps(in c20Input) []c20Op {
+	switch in.Nested {
+	case "cancel":
+		return []c20Op{{Op: "cancel"}}
+	case "size":
+		return []c20Op{{Op: "size"}}
+	case "end":
+		ops := make([]c20Op, len(in.NEnd))
+		for i, id := range in.NEnd {
+			ops[i] = c20Op{Op: "end", M: id}
+		}
+		return ops
+	}
+	panic("c20: bad nested operation " + in.Nested)
+}
+
+func runNested(ctx *core.Ctx, in c20Input) {
+	nops := nestedOps(in)
+	if len(nops) == 0 {
+		panic("c20: nested end without ids")
+	}
+	if anyFast(in.Ops) || anyFast(in.Ops2) {
+		panic("c20: fast operations are for plain scripts")
+	}
+	wait := time.Duration(in.WaitMs) * time.Millisecond
+	if wait <= 0 {
+		wait = 50 * time.Millisecond
+	}
+	addOp := c20Op{Op: "add", M: in.M}
+	r, obs0 := newRunner(in, []c20Op{addOp}, nops, in.Ops2)
+	obs1 := r.steps(in.Ops, false)
+	prefixDone := len(obs1) == len(in.Ops) && !r.stopped()
+
+	var called, inside, ndone bool // ndone: the pool's context was seen done inside the callback
+	nret := true
+	var nres *int64
+	var obsA c20Obs
+	var obs2 []c20Obs
+	if prefixDone {
+		p := r.p
+		completed := make(chan struct{})
+		var sizeRes int
+		var npanic bool
+		start := func() { // the nested Cancel() / Size(), on its own goroutine
+			go func() {
+				defer close(completed)
+				defer func() { npanic = recover() != nil }()
+				if in.Nested == "cancel" {
+					p.Cancel()
+				} else {
+					sizeRes = p.Size()
+				}
+			}()
+		}
+		endMembers := func() {
+			for _, id := range in.NEnd {
+				r.cs.end(id)
+			}
+		}
+		h := &hookCtx{Context: r.cs.get(in.M)}
+		h.hook = func() {
+			called = true
+			t := time.NewTimer(wait)
+			defer t.Stop()
+			defer func() { ndone = isDone(p) }()
+			if in.Nested == "end" {
+				endMembers()
+				select {
+				case <-p.Done():
+					inside = true
+				case <-t.C:
+				}
+				return
+			}
+			start()
+			select {
+			case <-completed:
+				inside = true
+			case <-t.C:
+			}
+		}
+		if r.call("Add", func() { p.Add(h) }) {
+			if !called { // Add ignored the offer without asking for Done(): the operation comes after it
+				if in.Nested == "end" {
+					endMembers()
+				} else {
+					start()
+				}
+			}
+			if in.Nested != "end" {
+				d, rec := patience.deadline()
+				t := time.NewTimer(d)
+				select {
+				case <-completed:
+				case <-t.C:
+					nret = false
+					if !patience.failed(rec) {
+						r.dropped = true
+					}
+				}
+				t.Stop()
+				if nret && npanic {
+					nret = false
+					r.panicked = true
+				}
+				if nret && in.Nested == "size" {
+					v := int64(sizeRes)
+					nres = &v
+				}
+			}
+			r.ex.apply(addOp)
+			for _, op := range nops {
+				r.ex.apply(op)
+			}
+			if !nret {
+				// the nested call is still blocked: nothing more is asked of this pool
+				r.wedged = "nested " + in.Nested
+			} else {
+				obsA = r.observe(20)
+				if !r.stopped() {
+					obs2 = r.steps(in.Ops2, true)
+				}
+			}
+		}
+	}
+	final, leak := r.finish()
+
+	c := hx.Case{Kind: "nested", Input: hx.MustJSON(in), Facts: map[string]any{}}
+	if !r.decorate(ctx, &c, "nested") {
+		return
+	}
+	nLiveInit := liveInit(in)
+	c.Trivial = nLiveInit == 0
+	c.Class = fmt.Sprintf("nested/pre%v/init%v/%s/add%d/%s%v/%s", in.Pre, in.Init, opsShape(in.Ops), in.M,
+		in.Nested, in.NEnd, opsShape(in.Ops2))
+	ctx.Sink.Count("kind=nested")
+	if !prefixDone || (r.wedged != "" && nret) {
+		// a call of the plain script part wedged: recorded as the script up to that call
+		c.Observed = map[string]any{"obs0": obs0, "obs": obs1, "final_done": final, "goroutine_left": leak}
+		c.Coq = fmt.Sprintf("CScript %s %s %s %s %s %s %s", hx.CoqInts(in.Pre), hx.CoqInts(in.Init),
+			opsCoq(in.Ops[:len(obs1)]), obs0.coq(), obsCoq(obs1), hx.CoqBool(final), hx.CoqBool(leak))
+		ctx.Sink.Add(c)
+		return
+	}
+	ops2 := in.Ops2[:len(obs2)]
+	c.Observed = map[string]any{"obs0": obs0, "obs1": obs1, "done_called": called, "completed_inside_callback": inside,
+		"pool_seen_done_inside_callback": ndone, "nested_returned": nret, "nested_size": nres, "obs_after": obsA, "obs2": obs2, "final_done": final, "goroutine_left": leak}
+	c.Coq = fmt.Sprintf("CNested %s %s %s %s %s %s %s %s %s %s %s %s %s %s %s %s %s", hx.CoqInts(in.Pre), hx.CoqInts(in.Init),
+		opsCoq(in.Ops), obs0.coq(), obsCoq(obs1), hx.CoqZ(int64(in.M)), opsCoq(nops),
+		hx.CoqBool(called), hx.CoqBool(inside), hx.CoqBool(ndone), hx.CoqBool(nret), hx.CoqOptZ(nres),
+		obsA.coq(), opsCoq(ops2), obsCoq(obs2), hx.CoqBool(final), hx.CoqBool(leak))
+	ctx.Sink.Count("nested/op=" + in.Nested)
+	ctx.Sink.Count(fmt.Sprintf("nested/live_members_at_add=%d", liveAt(in)))
+	switch {
+	case !called:
+		ctx.Sink.Count("nested/order=Done_not_called(operation_after_Add)")
+	case inside:
+		ctx.Sink.Count("nested/order=completed_inside_callback")
+	default:
+		ctx.Sink.Count("nested/order=completed_after_Add_returned")
+	}
+	ctx.Sink.Add(c)
+}
+
+// liveAt: initial contexts still live when the nested Add is issued (statistics only).
+func liveAt(in c20Input) int {
+	ended := map[int]bool{}
+	for _, id := range in.Pre {
+		ended[id] = true
+	}
+	for _, op := range in.Ops {
+		if op.Op == "end" {
+			ended[op.M] = true
+		}
+	}
+	n := 0
+	seen := map[int]bool{}
+	for _, id := range in.Init {
+		if !ended[id] && !seen[id] {
+			n++
+		}
+		seen[id] = true
+	}
+	return n
 }
 
 // ---------------------------------------------------------------------------------------
@@ -321,6 +837,7 @@ type raceOutcome struct {
 	confirmed       []bool
 	mid, fin, leak  bool
 	accepted, sizeM int
+	dropped         bool // a liveness wait failed under the shortened deadline: not recorded
 }
 
 func raceOnce(k, adders int, delays []int) raceOutcome {
@@ -377,15 +894,24 @@ func raceOnce(k, adders int, delays []int) raceOutcome {
 		}()
 	}
 	start.Store(true)
-	wg.Wait()
+	if d, rec := patience.deadline(); !returnsOK(wg.Wait, d) { // an Add that never returns
+		return raceOutcome{confirmed: make([]bool, adders), leak: true, dropped: !patience.failed(rec)}
+	}
 	mid := settleNotDone(p, 40)
 	sizeMid := p.Size()
 	for _, c := range acancel {
 		c()
 	}
-	fin := waitDone(p, doneDeadline)
-	leak := !goroutinesBack(base)
-	return raceOutcome{confirmed: confirmed, mid: mid, fin: fin, leak: leak, accepted: sizeMid - k, sizeM: sizeMid}
+	d, rec := patience.deadline()
+	fin := waitDone(p, d)
+	dropped := !fin && !patience.failed(rec)
+	leak := true
+	if fin {
+		d, rec = patience.deadline()
+		leak = !goroutinesBack(base, d)
+		dropped = leak && !patience.failed(rec)
+	}
+	return raceOutcome{confirmed: confirmed, mid: mid, fin: fin, leak: leak, accepted: sizeMid - k, sizeM: sizeMid, dropped: dropped}
 }
 
 func runRace(ctx *core.Ctx, in c20Input) {
@@ -409,7 +935,12 @@ func runRace(ctx *core.Ctx, in c20Input) {
 		for i := 1; i < len(delays); i++ {
 			delays[i] = bias + r.Intn(in.Spin+1)
 		}
+		patience.begin()
 		o := raceOnce(in.K, in.Adders, delays)
+		if o.dropped {
+			ctx.Sink.Count("race/dropped(liveness_wait_failed_under_short_deadline_after_3_recorded_failures)")
+			break
+		}
 		key := fmt.Sprintf("%v/mid=%v/fin=%v/leak=%v", o.confirmed, o.mid, o.fin, o.leak)
 		if a, ok := classes[key]; ok {
 			a.n++
@@ -418,6 +949,10 @@ func runRace(ctx *core.Ctx, in c20Input) {
 			order = append(order, key)
 		}
 		ctx.Sink.Count("race/runs")
+		if patience.caseFailed {
+			ctx.Sink.Count("race/liveness_failure_recorded")
+			break // the remaining repetitions would each wait for the same thing
+		}
 		any := false
 		for _, b := range o.confirmed {
 			any = any || b
@@ -462,6 +997,8 @@ func c20Run(ctx *core.Ctx, in c20Input) {
 		runScript(ctx, in)
 	case "race":
 		runRace(ctx, in)
+	case "nested":
+		runNested(ctx, in)
 	default:
 		panic("c20: bad kind " + in.Kind)
 	}
@@ -542,6 +1079,256 @@ func family(n int, mask int, perm []int, extras map[int][]c20Op) c20Input {
 	return in
 }
 
+// Nested cases. Ids: 0..k-1 live initial contexts, 4 a live newcomer, 5 a newcomer that has
+// already ended, 6 a live context added by the prefix, 7 an initial context that has already
+// ended, 8 a context offered at the very end.
+func nestedInput(k int, deadAt int, prefix, offered, nested int, waitMs int) (c20Input, bool) {
+	in := c20Input{Kind: "nested", WaitMs: waitMs, Pre: []int{5}}
+	for i := 0; i < k; i++ {
+		if i == deadAt {
+			in.Init = append(in.Init, 7)
+		}
+		in.Init = append(in.Init, i)
+	}
+	if deadAt == k {
+		in.Init = append(in.Init, 7)
+	}
+	if deadAt >= 0 {
+		in.Pre = append(in.Pre, 7)
+	}
+	live := make([]int, k)
+	for i := range live {
+		live[i] = i
+	}
+	switch prefix {
+	case 0: // Add straight after creation
+	case 1: // the first member has ended
+		if k == 0 {
+			return in, false
+		}
+		in.Ops = []c20Op{{Op: "end", M: 0}}
+		live = live[1:]
+	case 2: // a live context was added before
+		in.Ops = []c20Op{{Op: "add", M: 6}}
+		if k > 0 {
+			live = append(live, 6)
+		}
+	case 3: // the pool was cancelled
+		in.Ops = []c20Op{{Op: "cancel"}}
+	case 4: // every member has ended
+		if k == 0 {
+			return in, false
+		}
+		for _, id := range live {
+			in.Ops = append(in.Ops, c20Op{Op: "end", M: id})
+		}
+		live = nil
+	}
+	switch offered {
+	case 0:
+		in.M = 4
+	case 1:
+		in.M = 5
+	case 2: // a member again
+		if k == 0 {
+			return in, false
+		}
+		in.M = k - 1
+	}
+	switch nested {
+	case 0:
+		in.Nested = "cancel"
+	case 1:
+		in.Nested = "size"
+	case 2: // every live member ends inside the callback
+		if len(live) == 0 {
+			return in, false
+		}
+		in.Nested, in.NEnd = "end", append([]int(nil), live...)
+	case 3: // ... in the opposite order
+		if len(live) < 2 {
+			return in, false
+		}
+		in.Nested = "end"
+		for i := len(live) - 1; i >= 0; i-- {
+			in.NEnd = append(in.NEnd, live[i])
+		}
+	case 4: // all but the first live member end
+		if len(live) < 2 {
+			return in, false
+		}
+		in.Nested, in.NEnd = "end", append([]int(nil), live[1:]...)
+	}
+	in.Ops2 = []c20Op{{Op: "size"}, {Op: "end", M: in.M}, {Op: "size"}, {Op: "add", M: 8}, {Op: "size"}}
+	return in, true
+}
+
+// Scripts with operations issued back to back (no settling, no look in between): what a caller
+// sees who calls Cancel(); Add(c); Size() in a row. Ids: 0..n-1 initial, n a live newcomer, n+1
+// a newcomer that has already ended, n+2 another live newcomer.
+func genFast(ctx *core.Ctx) {
+	r := ctx.R
+	f := func(op string, m int) c20Op { return c20Op{Op: op, M: m, Fast: true} }
+	s := func(op string, m int) c20Op { return c20Op{Op: op, M: m} }
+	for n := 0; n <= 3; n++ {
+		for mask := 0; mask < 1<<n; mask++ {
+			if bitsSet(mask) > 1 {
+				continue
+			}
+			base := c20Input{Kind: "script", Pre: []int{n + 1}}
+			for i := 0; i < n; i++ {
+				base.Init = append(base.Init, i)
+				if mask&(1<<i) != 0 {
+					base.Pre = append(base.Pre, i)
+				}
+			}
+			seqs := [][]c20Op{
+				{f("cancel", 0), s("add", n), s("size", 0), s("end", n)},
+				{f("cancel", 0), s("size", 0)},
+				{f("cancel", 0), f("add", n), s("size", 0), s("add", n+2), s("size", 0)},
+				{f("cancel", 0), f("cancel", 0), f("add", n+1), s("add", n)},
+				{f("add", n), f("cancel", 0), f("add", n+2), s("size", 0)},
+				{f("add", n), f("add", n+1), s("size", 0), s("end", n), s("size", 0)},
+				{f("size", 0), f("add", n), f("size", 0), f("cancel", 0), s("add", n+2), s("size", 0)},
+				{f("add", n), s("cancel", 0), f("add", n+2), s("size", 0)},
+			}
+			if n-bitsSet(mask) >= 1 { // a member ends, then the burst
+				first := 0
+				for mask&(1<<first) != 0 {
+					first++
+				}
+				seqs = append(seqs,
+					[]c20Op{s("end", first), f("cancel", 0), s("add", n), s("size", 0)},
+					[]c20Op{s("end", first), f("add", n), f("add", n+2), s("size", 0), s("cancel", 0), s("size", 0)})
+			}
+			for _, ops := range seqs {
+				in := base
+				in.Ops = ops
+				c20Run(ctx, in)
+			}
+		}
+	}
+	random := 200
+	if ctx.Thorough {
+		random = 10000
+	}
+	for k := 0; k < random; k++ {
+		n := r.Intn(4)
+		ids := n + 3
+		in := c20Input{Kind: "script"}
+		for i := 0; i < n; i++ {
+			in.Init = append(in.Init, i)
+		}
+		for i := 0; i < ids; i++ {
+			if r.Chance(1, 5) {
+				in.Pre = append(in.Pre, i)
+			}
+		}
+		nops := r.Range(2, 8)
+		for j := 0; j < nops; j++ {
+			fast := r.Chance(2, 3)
+			switch x := r.Intn(20); {
+			case x < 5:
+				in.Ops = append(in.Ops, c20Op{Op: "end", M: r.Intn(ids)})
+			case x < 12:
+				in.Ops = append(in.Ops, c20Op{Op: "add", M: r.Intn(ids), Fast: fast})
+			case x < 16:
+				in.Ops = append(in.Ops, c20Op{Op: "cancel", Fast: fast})
+			default:
+				in.Ops = append(in.Ops, c20Op{Op: "size", Fast: fast})
+			}
+		}
+		in.Ops = append(in.Ops, c20Op{Op: "add", M: ids}, c20Op{Op: "size"})
+		c20Run(ctx, in)
+	}
+}
+
+func bitsSet(x int) int {
+	n := 0
+	for ; x != 0; x &= x - 1 {
+		n++
+	}
+	return n
+}
+
+func genNested(ctx *core.Ctx) {
+	r := ctx.R
+	waitMs := 40
+	if ctx.Thorough {
+		waitMs = 150
+	}
+	for k := 0; k <= 3; k++ {
+		for deadAt := -1; deadAt <= k; deadAt++ {
+			for prefix := 0; prefix < 5; prefix++ {
+				for offered := 0; offered < 3; offered++ {
+					for nested := 0; nested < 5; nested++ {
+						in, ok := nestedInput(k, deadAt, prefix, offered, nested, waitMs)
+						if !ok {
+							continue
+						}
+						// everything without an ended initial context; a third of the rest
+						if deadAt >= 0 && !ctx.Thorough && !r.Chance(1, 3) {
+							continue
+						}
+						c20Run(ctx, in)
+					}
+				}
+			}
+		}
+	}
+	// random: a random script, a random offer with a random nested operation, a random script
+	random := 40
+	if ctx.Thorough {
+		random = 3000
+	}
+	for i := 0; i < random; i++ {
+		n := r.Intn(4)
+		ids := n + 3
+		in := c20Input{Kind: "nested", WaitMs: waitMs}
+		for j := 0; j < n; j++ {
+			in.Init = append(in.Init, j)
+		}
+		for j := 0; j < ids; j++ {
+			if r.Chance(1, 5) {
+				in.Pre = append(in.Pre, j)
+			}
+		}
+		randOps := func(k int) []c20Op {
+			var ops []c20Op
+			for j := 0; j < k; j++ {
+				switch x := r.Intn(20); {
+				case x < 8:
+					ops = append(ops, c20Op{Op: "end", M: r.Intn(ids)})
+				case x < 14:
+					ops = append(ops, c20Op{Op: "add", M: r.Intn(ids)})
+				case x < 15:
+					ops = append(ops, c20Op{Op: "cancel"})
+				default:
+					ops = append(ops, c20Op{Op: "size"})
+				}
+			}
+			return ops
+		}
+		in.Ops = randOps(r.Intn(4))
+		in.M = r.Intn(ids)
+		switch r.Intn(3) {
+		case 0:
+			in.Nested = "cancel"
+		case 1:
+			in.Nested = "size"
+		default:
+			in.Nested = "end"
+			all := make([]int, ids)
+			for j := range all {
+				all[j] = j
+			}
+			in.NEnd = shuffled(r, all)[:r.Range(1, ids)]
+		}
+		in.Ops2 = append(randOps(r.Intn(4)), c20Op{Op: "size"}, c20Op{Op: "add", M: ids}, c20Op{Op: "size"})
+		c20Run(ctx, in)
+	}
+}
+
 func c20Gen(ctx *core.Ctx) {
 	r := ctx.R
 	// a short burst of races first (their goroutines are gone before the scripts start)
@@ -557,6 +1344,9 @@ func c20Gen(ctx *core.Ctx) {
 		spinMax := []int{0, 200, 2000, 20000}[r.Intn(4)]
 		runRace(ctx, c20Input{Kind: "race", K: k, Adders: adders, Reps: reps, Spin: spinMax, Seed: int64(r.U64() >> 1)})
 	}
+
+	genNested(ctx)
+	genFast(ctx)
 
 	// --- structured families: pools of 0..4 initial contexts x which of them had already ended
 	// x every order of the member cancellations x one extra operation at every position.
